@@ -34,7 +34,7 @@ Judge(e) ==
                ~e.clamped \/ (e.d32 = e.d32ref /\ e.a32 = e.a32ref)>>,
              <<"C06 kernel in double precision = model (logic, 1e-9)",
                ~e.has64 \/ (FClose(e.d64, md, FDec("1e-9"), FDec("1e-300")) /\ (FLt(md, FDec("1e-280")) \/ FClose(e.a64, ma, FDec("1e-9"), FDec("1e-300"))))>> >>)
-    \o (IF tkLine = Len(Trace) /\ Len(errs) >= 8
+    \o (IF tkLine = Len(Trace) /\ Len(errs) >= 8 /\ FEq(e.scale, FZero)
         THEN Fails(<< <<"C06 photon density within 0.5 % of the model in the median",
                         FLe(Median(Append(errs, Rel(e.d32, out[1]))), FDec("0.005"))>> >>)
         ELSE <<>>)
@@ -50,7 +50,8 @@ TLoad == phase = "idle" /\ tkLine <= Len(Trace) /\ Load(Inputs(Ev)) /\ UNCHANGED
 TRun == CNext /\ UNCHANGED <<tkvars, tvars>>
 TJudge == /\ phase = "done" /\ TKAdvance
           /\ TKRecord(Judge(Ev))
-          /\ errs' = IF FGt(out[1], FDec("1")) THEN Append(errs, Rel(Ev.d32, out[1])) ELSE errs      \* median over events with a measurable signal
+          (* median over cloud-free events (scale = 0: the C06 domain) with a measurable signal *)
+          /\ errs' = IF FGt(out[1], FDec("1")) /\ FEq(Ev.scale, FZero) THEN Append(errs, Rel(Ev.d32, out[1])) ELSE errs
           /\ phase' = "idle" /\ UNCHANGED <<ev, geo, z, cumT, cumO, ozPrev, tot, acc, out>>
 TNext == TLoad \/ TRun \/ TJudge
 TSpec == TInit /\ [][TNext]_<<tkvars, tvars, cvars>>
